@@ -59,7 +59,7 @@ func H_C03_text() {
 		cfgs = []int{0, 1, 2, 3, 4, 5, 6, 7, 8, 9}
 	}
 	cfg := cfgs[ndChoice("cfg", len(cfgs))]
-	form := ndChoice("form", 5)
+	form := ndChoice("form", 6)
 	if cfg >= 8 {
 		// one-sided comment configurations differ from the default only in comments
 		vfAssume(form == 4)
@@ -93,6 +93,12 @@ func H_C03_text() {
 		vfReach("both")
 		a = l + `- "x" -` + r
 		w1, w2 = c03TrimRight(t1), c03TrimLeft(t2)
+	case 5:
+		// a dash followed by a tab / newline is a unary minus, not a trim marker
+		vfReach("plain")
+		ws := []string{"\t", "\n", "\r\n"}[ndChoice("dashws", 3)]
+		a = l + "-" + ws + "1 " + r
+		mid = "-1"
 	default:
 		vfReach("comment")
 		// the comment body is symbolic too; it only must not contain the closing marker
